@@ -35,3 +35,28 @@ impl Vob {
             changed == (final(self)@ != old(self)@),
     { unimplemented!() }
 }
+// ---- Vec<Vob>: `vec![Vob::from_elem(b, n); m]` and mutation of one element through `&mut v[i]` ----
+pub open spec fn vv(v: Seq<Vob>) -> Seq<Seq<bool>> { Seq::new(v.len(), |i: int| v[i]@) }
+#[verifier::external_body]
+pub fn vv_new(b: bool, n: usize, m: usize) -> (r: Vec<Vob>)
+    ensures r@.len() == m, forall|i: int, j: int| 0 <= i < m && 0 <= j < n ==> (#[trigger] r@[i]@[j]) == b, forall|i: int| 0 <= i < m ==> (#[trigger] r@[i])@.len() == n,
+{ unimplemented!() }
+// `v[i].set(j, b)`: panics when i or j is out of range; returns whether the bit changed
+#[verifier::external_body]
+pub fn vv_set(v: &mut Vec<Vob>, i: usize, j: usize, b: bool) -> (changed: bool)
+    requires i < old(v)@.len(), // OBLG: vec_index_in_range
+             j < old(v)@[i as int]@.len(), // OBLG: vob_set_index_in_range
+    ensures final(v)@.len() == old(v)@.len(), final(v)@[i as int]@ == old(v)@[i as int]@.update(j as int, b),
+        forall|k: int| 0 <= k < old(v)@.len() && k != i ==> final(v)@[k] == old(v)@[k],
+        changed == (old(v)@[i as int]@[j as int] != b),
+{ unimplemented!() }
+// `v[i].or(other)`
+#[verifier::external_body]
+pub fn vv_or(v: &mut Vec<Vob>, i: usize, other: &Vob) -> (changed: bool)
+    requires i < old(v)@.len(), // OBLG: vec_index_in_range
+             old(v)@[i as int]@.len() == other@.len(), // OBLG: vob_or_same_length
+    ensures final(v)@.len() == old(v)@.len(), final(v)@[i as int]@.len() == old(v)@[i as int]@.len(),
+        forall|j: int| 0 <= j < other@.len() ==> (#[trigger] final(v)@[i as int]@[j]) == (old(v)@[i as int]@[j] || other@[j]),
+        forall|k: int| 0 <= k < old(v)@.len() && k != i ==> final(v)@[k] == old(v)@[k],
+        changed == (final(v)@[i as int]@ != old(v)@[i as int]@),
+{ unimplemented!() }
